@@ -4,6 +4,7 @@ package c13
 
 import (
 	"net/http"
+	"strconv"
 
 	ohttp "github.com/php-any/origami/std/net/http"
 	"verif/symx"
@@ -17,6 +18,8 @@ type recorder struct {
 	code    int
 	sent    [4]string // snapshot of X-A, Content-Type, Location, Set-Cookie (all values) at first commit
 	body    []byte
+	extra   int // headers present at the first commit that no operation of the history set (seed C13h)
+	limit   int // declared Content-Length at the first commit + 1 (0 = none): net/http rejects body bytes beyond it
 }
 
 var keys = [4]string{"X-A", "Content-Type", "Location", "Set-Cookie"}
@@ -41,12 +44,25 @@ func (r *recorder) commit(code int) {
 		for i, k := range keys {
 			r.sent[i] = headerValue(r.hdr, k)
 		}
+		for k, vs := range r.hdr {
+			if k != keys[0] && k != keys[1] && k != keys[2] && k != keys[3] && len(vs) > 0 {
+				r.extra++
+			}
+			if k == "Content-Length" && len(vs) > 0 {
+				if n, err := strconv.Atoi(vs[0]); err == nil && n >= 0 {
+					r.limit = n + 1
+				}
+			}
+		}
 	}
 }
 func (r *recorder) WriteHeader(code int) { r.commit(code) }
 func (r *recorder) Write(p []byte) (int, error) {
 	if r.commits == 0 {
 		r.commit(200)
+	}
+	if r.limit > 0 && len(r.body)+len(p) > r.limit-1 {
+		return 0, http.ErrContentLength // what net/http's response writer does with a declared length
 	}
 	r.body = append(r.body, p...)
 	return len(p), nil
@@ -163,6 +179,7 @@ func checkAgainstModel(b *ohttp.BufferedWriter, rec *recorder, m *model, tag str
 	for i, k := range keys {
 		symx.Assert(headerValue(rec.hdr, k) == m.live[i], tag+"live-headers")
 	}
+	symx.Assert(rec.extra == 0, tag+"only-headers-the-history-set-are-committed")
 	symx.Assert(string(rec.body) == string(m.body), tag+"body")
 }
 
